@@ -559,3 +559,18 @@ fn output_selector(
     }
     ann_out
 }
+
+/// Verification hooks (compiled only with `--cfg stam_verif`): the string and value layer of the Web Annotation export.
+#[cfg(stam_verif)]
+pub mod verif_hooks_webanno {
+    use super::*;
+    pub fn verif_json_str(s: &str) -> String {
+        json_str(s)
+    }
+    pub fn verif_value_to_json(value: &DataValue) -> String {
+        value_to_json(value)
+    }
+    pub fn verif_into_iri(s: &str, prefix: &str) -> String {
+        into_iri(s, prefix).to_string()
+    }
+}
